@@ -172,6 +172,10 @@ func (fc *FnCtx) defaultCall(name string, c *ssa.CallCommon, args []Val, resType
 				}
 			}
 		}
+		// pointer arguments (also when boxed in an interface): the pointee may be written
+		for _, av := range c.Args {
+			fc.havocPointee(av, 0)
+		}
 		if fc.mayBlock(name) {
 			fc.blockingPoint(name, pos)
 		}
@@ -1047,4 +1051,46 @@ func (e *Engine) constArrayValues(g *ssa.Global) []string {
 		out = append(out, tv.Value.ExactString())
 	}
 	return out
+}
+
+// havocPointee: the object a pointer argument designates becomes arbitrary (extern callee may write it).
+func (fc *FnCtx) havocPointee(v ssa.Value, depth int) {
+	if depth > 2 {
+		return
+	}
+	if mi, ok := v.(*ssa.MakeInterface); ok {
+		fc.havocPointee(mi.X, depth+1)
+		return
+	}
+	pt, ok := v.Type().Underlying().(*types.Pointer)
+	if !ok {
+		return
+	}
+	pv := fc.valOf(v)
+	elem := pt.Elem()
+	if pv.Loc != nil {
+		fc.heap = fc.heap.clone()
+		nv := fc.fresh("havoc."+pv.Loc.Region, pv.Loc.Sort)
+		fc.storeLoc(fc.heap, pv.Loc, nv)
+		if k, ok := intKindOf(elem); ok {
+			fc.assumeHere(k.inRange(nv))
+		}
+		return
+	}
+	if sortOf(elem) != "" {
+		fc.heap = fc.heap.clone()
+		l := fc.ptrLoc(pv, elem)
+		nv := fc.fresh("havoc."+l.Region, l.Sort)
+		fc.storeLoc(fc.heap, l, nv)
+		if k, ok := intKindOf(elem); ok {
+			fc.assumeHere(k.inRange(nv))
+		}
+		return
+	}
+	if _, ok := structOf(elem); ok {
+		fc.heap = fc.heap.clone()
+		nv := fc.freshVal("havoc.struct", elem)
+		fc.assumeHere(fc.typeFacts(nv, elem))
+		fc.storeVal(fc.heap, pv, elem, nv)
+	}
 }
